@@ -72,16 +72,16 @@ Qed.
 
 (** ** the destructor walk: the whole trace, exactly *)
 Section Calls.
-  Variable dt : Z -> Z.
+  Variable dt kg : Z -> Z.
 
   Definition slot_evs (levels : nat) (n : node) (k : Z) : list ev :=
     match find_rec levels n k with
-    | Found v => ERead k :: (if dt k =? 0 then [] else [ECall k v])
+    | Found v g => ERead k :: (if dt k =? 0 then [] else [ECall k (if g =? kg k then v else 0)])
     | _ => []
     end.
 
   Lemma leaf_exact o es m : length es = 16%nat ->
-    leaf_loop (m * 16) es dt = flat_map (slot_evs 0 (Leaf o es)) (zrange (m * 16) 16).
+    leaf_loop (m * 16) es dt kg = flat_map (slot_evs 0 (Leaf o es)) (zrange (m * 16) 16).
   Proof.
     intros Hlen. unfold leaf_loop. change (Z.to_nat NLEAF) with 16%nat.
     replace (zrange (m * 16) 16) with (zrange (m * 16 + Z.of_nat 0) 16) by (f_equal; lia).
@@ -93,12 +93,12 @@ Section Calls.
   (** one child of an internal node *)
   Lemma child_exact l o c0 c1 c2 c3 m i
     (IH : forall n m', shapeb l n = true ->
-          calls_rec false dt l n (m' * stride_of l) (stride_of l) =
+          calls_rec false dt kg l n (m' * stride_of l) (stride_of l) =
           Some (flat_map (slot_evs l n) (zrange (m' * stride_of l) (sn l)))) :
     shapeb (S l) (Inner o c0 c1 c2 c3) = true -> 0 <= i < 4 ->
     let n := Inner o c0 c1 c2 c3 in
     let c := child n i in
-    (if is_nil c then Some [] else calls_rec false dt l c ((m * 4 + i) * stride_of l) (stride_of l)) =
+    (if is_nil c then Some [] else calls_rec false dt kg l c ((m * 4 + i) * stride_of l) (stride_of l)) =
     Some (flat_map (slot_evs (S l) n) (zrange ((m * 4 + i) * stride_of l) (sn l))).
   Proof.
     intros Hs Hi n c.
@@ -116,7 +116,7 @@ Section Calls.
   Qed.
 
   Lemma calls_rec_exact levels : forall n m, shapeb levels n = true ->
-    calls_rec false dt levels n (m * stride_of levels) (stride_of levels) =
+    calls_rec false dt kg levels n (m * stride_of levels) (stride_of levels) =
     Some (flat_map (slot_evs levels n) (zrange (m * stride_of levels) (sn levels))).
   Proof.
     induction levels as [|l IH]; intros n m Hs.
@@ -150,10 +150,13 @@ Section Calls.
 End Calls.
 
 (** ** the teardown walk *)
-Definition freed (o : origin) : bool :=
-  match o with Pool off => (off <? 0) || (off >=? POOL_SZ) | Heap _ => true end.
+Section Destroy.
+Variable c : cfg.
 
-Lemma node_free_eq o : node_free o = if freed o then [EFree o] else [].
+Definition freed (o : origin) : bool :=
+  match o with Pool off => (off <? 0) || (off >=? c_pool c) | Heap _ => true end.
+
+Lemma node_free_eq o : node_free c o = if freed o then [EFree o] else [].
 Proof. destruct o; reflexivity. Qed.
 
 Definition free_evs (os : list origin) : list ev := map EFree (filter freed os).
@@ -161,12 +164,12 @@ Definition free_evs (os : list origin) : list ev := map EFree (filter freed os).
 Lemma free_evs_app a b : free_evs (a ++ b) = free_evs a ++ free_evs b.
 Proof. unfold free_evs. rewrite filter_app, map_app. reflexivity. Qed.
 
-Lemma free_node_evs o : flat_map node_free [o] = free_evs [o].
+Lemma free_node_evs o : flat_map (node_free c) [o] = free_evs [o].
 Proof. cbn [flat_map]. rewrite app_nil_r, node_free_eq. unfold free_evs. cbn [filter]. destruct (freed o); reflexivity. Qed.
 
 Lemma destroy_rec_exact levels : forall n base stride, shapeb levels n = true ->
-  exists os, destroy_rec false levels n base stride = Some (free_evs os) /\
-             Permutation os (map fst (nodes n)).
+  exists os, destroy_rec false c levels n base stride = Some (free_evs os) /\
+             Permutation os (map fst (nodes c n)).
 Proof.
   induction levels as [|l IH]; intros n base stride Hs.
   - apply shape_O_inv in Hs. destruct Hs as (o & es & -> & _). exists [o].
@@ -175,11 +178,11 @@ Proof.
     apply shape_inner in Hs. destruct Hs as (H0 & H1 & H2 & H3).
     cbn [destroy_rec origin_of]. unfold loop. cbn [children child_loop].
     set (cs := Z.shiftr stride LOGC).
-    assert (G : forall c b, okc l c -> exists os,
-              (if is_nil c then Some [] else destroy_rec false l c b cs) = Some (free_evs os) /\
-              Permutation os (map fst (nodes c))).
-    { intros c b [-> |Hc]; [exists []; split; reflexivity|].
-      assert (En : is_nil c = false).
+    assert (G : forall ch b, okc l ch -> exists os,
+              (if is_nil ch then Some [] else destroy_rec false c l ch b cs) = Some (free_evs os) /\
+              Permutation os (map fst (nodes c ch))).
+    { intros ch b [-> |Hc]; [exists []; split; reflexivity|].
+      assert (En : is_nil ch = false).
       { apply is_nil_false. intros ->. rewrite shapeb_not_nil in Hc. discriminate. }
       rewrite En. apply IH. exact Hc. }
     destruct (G c0 base H0) as (o0 & E0 & P0).
@@ -193,14 +196,14 @@ Proof.
 Qed.
 
 (** ** [fini] on reachable trees *)
-Definition call_slot (dt : Z -> Z) (t : tree) (k : Z) : list (Z * Z) :=
+Definition call_slot (dt kg : Z -> Z) (t : tree) (k : Z) : list (Z * Z) :=
   match look_tree t k with
-  | Found v => if dt k =? 0 then [] else [(k, v)]
+  | Found v g => if dt k =? 0 then [] else [(k, if g =? kg k then v else 0)]
   | _ => []
   end.
 
 Definition read_slot (t : tree) (k : Z) : list Z :=
-  match look_tree t k with Found _ => [k] | _ => [] end.
+  match look_tree t k with Found _ _ => [k] | _ => [] end.
 
 Lemma calls_of_app a b : calls_of (a ++ b) = calls_of a ++ calls_of b.
 Proof. apply flat_map_app. Qed.
@@ -224,11 +227,11 @@ Proof.
   intros Hk Hnn. rewrite look_tree_in by exact Hk. apply find_non_nil. exact Hnn.
 Qed.
 
-Theorem fini_exact dt t : reach t ->
-  exists evs, fini false dt t = Some evs /\
-    calls_of evs = flat_map (call_slot dt t) (zrange 0 1024) /\
+Theorem fini_exact dt kg t : reach c t ->
+  exists evs, fini false c dt kg t = Some evs /\
+    calls_of evs = flat_map (call_slot dt kg t) (zrange 0 1024) /\
     reads_of evs = flat_map (read_slot t) (zrange 0 1024) /\
-    exists os, frees_of evs = filter freed os /\ Permutation os (map fst (nodes (root t))).
+    exists os, frees_of evs = filter freed os /\ Permutation os (map fst (nodes c (root t))).
 Proof.
   intros Hr. unfold fini. destruct (is_nil (root t)) eqn:En.
   - exists []. split; [reflexivity|].
@@ -238,8 +241,8 @@ Proof.
     split; [symmetry; apply flat_map_nil_in; intros k _; unfold read_slot; rewrite Hl; reflexivity|].
     exists []. split; [reflexivity|]. apply is_nil_true in En. rewrite En. reflexivity.
   - apply is_nil_false in En.
-    destruct (reach_wf t Hr) as [E|Hs]; [contradiction|].
-    pose proof (calls_rec_exact dt DEPTH (root t) 0 Hs) as Hc.
+    destruct (reach_wf c t Hr) as [E|Hs]; [contradiction|].
+    pose proof (calls_rec_exact dt kg DEPTH (root t) 0 Hs) as Hc.
     rewrite stride_depth in Hc. cbn [Z.mul] in Hc. rewrite Hc.
     destruct (destroy_rec_exact DEPTH (root t) 0 NKEYS Hs) as (os & Hd & P). rewrite Hd.
     cbn [opt_app]. eexists. split; [reflexivity|].
@@ -258,7 +261,7 @@ Proof.
       destruct (find_rec DEPTH (root t) k); [reflexivity| |reflexivity].
       cbn [flat_map app]. destruct (dt k =? 0); reflexivity.
     + exists os. split; [|exact P].
-      assert (Hz : frees_of (flat_map (slot_evs dt DEPTH (root t)) (zrange 0 1024)) = []).
+      assert (Hz : frees_of (flat_map (slot_evs dt kg DEPTH (root t)) (zrange 0 1024)) = []).
       { unfold frees_of. rewrite flat_map_flat_map. apply flat_map_nil_in. intros k _.
         unfold slot_evs. destruct (find_rec DEPTH (root t) k); [reflexivity| |reflexivity].
         cbn [flat_map app]. destruct (dt k =? 0); reflexivity. }
@@ -266,17 +269,21 @@ Proof.
 Qed.
 
 (** ** consequences in the words of the property *)
-Lemma in_call_slots dt t k v :
-  In (k, v) (flat_map (call_slot dt t) (zrange 0 1024)) <->
-  in_range k /\ dt k <> 0 /\ look_tree t k = Found v.
+Definition touched (t : tree) (k : Z) : Prop := exists v g, look_tree t k = Found v g.
+
+Lemma in_call_slots dt kg t k v :
+  In (k, v) (flat_map (call_slot dt kg t) (zrange 0 1024)) <->
+  in_range k /\ dt k <> 0 /\ touched t k /\ get kg t k = Some v.
 Proof.
   rewrite in_flat_map. split.
   - intros (k' & Hk' & Hin). apply zrange_in in Hk'. unfold call_slot in Hin.
-    destruct (look_tree t k') as [|v'|] eqn:El; [contradiction| |contradiction].
+    destruct (look_tree t k') as [|v' g'|] eqn:El; [contradiction| |contradiction].
     destruct (dt k' =? 0) eqn:Ed; [contradiction|]. destruct Hin as [Heq|[]].
-    inversion Heq; subst. apply Z.eqb_neq in Ed. unfold in_range. split; [lia|]. split; [exact Ed|exact El].
-  - intros (Hk & Hd & Hl). exists k. split; [apply zrange_in; unfold in_range in Hk; lia|].
-    unfold call_slot. rewrite Hl. apply Z.eqb_neq in Hd. rewrite Hd. left. reflexivity.
+    inversion Heq; subst. apply Z.eqb_neq in Ed. unfold in_range. split; [lia|]. split; [exact Ed|].
+    split; [exists v', g'; exact El|]. unfold get. rewrite El. reflexivity.
+  - intros (Hk & Hd & (v0 & g & Hl) & Hg). exists k. split; [apply zrange_in; unfold in_range in Hk; lia|].
+    unfold call_slot. rewrite Hl. apply Z.eqb_neq in Hd. rewrite Hd. left.
+    unfold get in Hg. rewrite Hl in Hg. inversion Hg. reflexivity.
 Qed.
 
 Lemma nodup_slots {B} (F : Z -> list (Z * B)) l :
@@ -291,7 +298,7 @@ Proof.
   assert (fst x = a) by (apply Hk; rewrite Ea; left; reflexivity). apply Hnin. congruence.
 Qed.
 
-Lemma call_slots_nodup dt t : NoDup (map fst (flat_map (call_slot dt t) (zrange 0 1024))).
+Lemma call_slots_nodup dt kg t : NoDup (map fst (flat_map (call_slot dt kg t) (zrange 0 1024))).
 Proof.
   apply nodup_slots; [apply zrange_nodup| |].
   - intros k x Hin. unfold call_slot in Hin. destruct (look_tree t k); try contradiction.
@@ -305,23 +312,27 @@ Proof.
   destruct (look_tree t k'); try contradiction. destruct Hin as [<-|[]]. unfold in_range. lia.
 Qed.
 
-Lemma get_found t k v : in_range k -> get t k = Some v -> v <> 0 -> look_tree t k = Found v.
+Lemma get_nonnull_touched kg t k v : get kg t k = Some v -> v <> 0 -> touched t k.
 Proof.
-  unfold get. destruct (look_tree t k) as [|v'|]; intros _ H Hv; inversion H; subst; [contradiction|reflexivity].
+  unfold get, touched. destruct (look_tree t k) as [|v' g'|]; intros H Hv; inversion H; subst;
+    [contradiction|eauto].
 Qed.
 
-Lemma freed_of_pool_inv t : reach t -> forall os, Permutation os (map fst (nodes (root t))) ->
+Hypothesis leaf_pos : 0 < c_leaf c.
+Hypothesis pool_nonneg : 0 <= c_pool c.
+
+Lemma freed_of_pool_inv t : reach c t -> forall os, Permutation os (map fst (nodes c (root t))) ->
   NoDup (filter freed os) /\
-  forall o, In o (filter freed os) <-> exists id sz, o = Heap id /\ In (o, sz) (nodes (root t)).
+  forall o, In o (filter freed os) <-> exists id sz, o = Heap id /\ In (o, sz) (nodes c (root t)).
 Proof.
-  intros Hr os P. destruct (pool_never_overruns t Hr) as (Hp & Hpool & Hheap & Hnd).
+  intros Hr os P. destruct (pool_never_overruns c leaf_pos pool_nonneg t Hr) as (Hp & Hpool & Hheap & Hnd).
   split.
   - apply NoDup_filter. eapply Permutation_NoDup; [symmetry; exact P|exact Hnd].
   - intros o. rewrite filter_In. split.
     + intros [Hin Hf]. eapply Permutation_in in Hin; [|exact P]. apply in_map_iff in Hin.
       destruct Hin as ([o' sz] & Heq & Hin). cbn in Heq. subst o'. destruct o as [off|id].
       * exfalso. destruct (Hpool off sz Hin) as (H1 & H2 & H3). cbn [freed] in Hf.
-        apply orb_true_iff in Hf. unfold POOL_SZ in *.
+        apply orb_true_iff in Hf.
         destruct Hf as [Hf|Hf]; [apply Z.ltb_lt in Hf; lia|]. rewrite Z.geb_leb in Hf. apply Z.leb_le in Hf. lia.
       * eauto.
     + intros (id & sz & -> & Hin). split; [|reflexivity].
@@ -331,72 +342,77 @@ Qed.
 Definition zz_eq_dec (a b : Z * Z) : {a = b} + {a <> b}.
 Proof. decide equality; apply Z.eq_dec. Defined.
 
-Theorem fini_property dt t : reach t ->
-  exists evs, fini false dt t = Some evs /\
-    (forall k v, In (k, v) (calls_of evs) -> in_range k /\ dt k <> 0 /\ get t k = Some v) /\
-    (forall k v, in_range k -> dt k <> 0 -> get t k = Some v -> v <> 0 ->
+Theorem fini_property dt kg t : reach c t ->
+  exists evs, fini false c dt kg t = Some evs /\
+    (forall k v, In (k, v) (calls_of evs) -> in_range k /\ dt k <> 0 /\ get kg t k = Some v) /\
+    (forall k v, in_range k -> dt k <> 0 -> get kg t k = Some v -> v <> 0 ->
                  count_occ zz_eq_dec (calls_of evs) (k, v) = 1%nat) /\
     NoDup (map fst (calls_of evs)) /\
     (forall k, In k (reads_of evs) -> in_range k) /\
     NoDup (frees_of evs) /\
-    (forall o, In o (frees_of evs) <-> exists id sz, o = Heap id /\ In (o, sz) (nodes (root t))).
+    (forall o, In o (frees_of evs) <-> exists id sz, o = Heap id /\ In (o, sz) (nodes c (root t))).
 Proof.
-  intros Hr. destruct (fini_exact dt t Hr) as (evs & Hf & Hc & Hrd & os & Hfr & P).
+  intros Hr. destruct (fini_exact dt kg t Hr) as (evs & Hf & Hc & Hrd & os & Hfr & P).
   exists evs. split; [exact Hf|]. rewrite Hc, Hrd, Hfr.
-  pose proof (call_slots_nodup dt t) as Hnd.
+  pose proof (call_slots_nodup dt kg t) as Hnd.
   split; [|split; [|split; [exact Hnd|split; [intros k; apply read_slots_in_table|]]]].
-  - intros k v Hin. apply in_call_slots in Hin. destruct Hin as (H1 & H2 & H3).
-    split; [exact H1|]. split; [exact H2|]. apply get_of_look. exact H3.
+  - intros k v Hin. apply in_call_slots in Hin. destruct Hin as (H1 & H2 & _ & H3). tauto.
   - intros k v Hk Hd Hg Hv.
-    assert (Hin : In (k, v) (flat_map (call_slot dt t) (zrange 0 1024))).
-    { apply in_call_slots. split; [exact Hk|]. split; [exact Hd|]. apply get_found; assumption. }
-    assert (Hnd2 : NoDup (flat_map (call_slot dt t) (zrange 0 1024))).
+    assert (Hin : In (k, v) (flat_map (call_slot dt kg t) (zrange 0 1024))).
+    { apply in_call_slots. split; [exact Hk|]. split; [exact Hd|]. split; [|exact Hg].
+      eapply get_nonnull_touched; eassumption. }
+    assert (Hnd2 : NoDup (flat_map (call_slot dt kg t) (zrange 0 1024))).
     { eapply NoDup_map_inv. exact Hnd. }
     apply (proj1 (NoDup_count_occ' _ _) Hnd2). exact Hin.
   - apply freed_of_pool_inv; assumption.
 Qed.
 
-(** a sequence of sets from the empty tree gives a reachable tree *)
-Lemma set_all_some_reach kvs : forall t t', reach t -> set_all t kvs = Some t' -> reach t'.
+(** with generation tags: a value left in a slot under an earlier incarnation
+    of the index never reaches a destructor - whatever is called for that key
+    is called with NULL *)
+Corollary stale_not_passed dt kg t k v0 g evs : reach c t ->
+  fini false c dt kg t = Some evs -> look_tree t k = Found v0 g -> g <> kg k ->
+  forall v, In (k, v) (calls_of evs) -> v = 0.
 Proof.
-  induction kvs as [|[k v] r IH]; intros t t' Hr H; cbn [set_all] in H.
-  - inversion H; subst; exact Hr.
-  - destruct (set t k v) as [[t1 rc]|] eqn:E; [|discriminate].
-    eapply IH; [|exact H]. eapply reach_set; eassumption.
+  intros Hr Hf Hl Hg v Hin. destruct (fini_property dt kg t Hr) as (evs' & Hf' & H1 & _).
+  rewrite Hf in Hf'. inversion Hf'; subst evs'. destruct (H1 k v Hin) as (_ & _ & Hget).
+  rewrite (stale_hidden kg t k v0 g Hl Hg) in Hget. inversion Hget. reflexivity.
 Qed.
+End Destroy.
 
-(** ** the walk as it was before commit 90cf288 *)
+(** ** the walk as it was before commit 90cf288 (code without generation tags) *)
 Theorem prefix_walk_refuted :
   (* key 16 alone, with a destructor and a non-NULL value: no call at all *)
-  (exists t, set_all empty [(16, 777)] = Some t /\ reach t /\ get t 16 = Some 777 /\
-             option_map calls_of (fini true (fun _ => 1) t) = Some []) /\
+  (exists t, set_all cfg_plain kg0 empty [(16, 777)] = Some t /\ reach cfg_plain t /\
+             get kg0 t 16 = Some 777 /\
+             option_map calls_of (fini true cfg_plain (fun _ => 1) kg0 t) = Some []) /\
   (* keys {0, 16}: leaf 1 is looked up at table cell 64: the destructor of key 64 receives
      key 16's value, key 16's own destructor is not called *)
-  (exists t, set_all empty [(0, 5); (16, 6)] = Some t /\ reach t /\
-             option_map calls_of (fini true (dt_of [0; 16; 64]) t) = Some [(0, 5); (64, 6)]) /\
+  (exists t, set_all cfg_plain kg0 empty [(0, 5); (16, 6)] = Some t /\ reach cfg_plain t /\
+             option_map calls_of (fini true cfg_plain (dt_of [0; 16; 64]) kg0 t) = Some [(0, 5); (64, 6)]) /\
   (* keys {0, 256}: the second subtree is walked with base 1024: cells past the table are read *)
-  (exists t evs, set_all empty [(0, 5); (256, 6)] = Some t /\ reach t /\
-             fini true (dt_of [0; 256]) t = Some evs /\ In 1024 (reads_of evs) /\
+  (exists t evs, set_all cfg_plain kg0 empty [(0, 5); (256, 6)] = Some t /\ reach cfg_plain t /\
+             fini true cfg_plain (dt_of [0; 256]) kg0 t = Some evs /\ In 1024 (reads_of evs) /\
              calls_of evs = [(0, 5)]) /\
   (* and the teardown walk leaked the nodes behind the first empty child *)
-  (exists t evs, set_all empty [(16, 1); (17, 2); (300, 3)] = Some t /\ reach t /\
-             fini true (fun _ => 0) t = Some evs /\
-             exists id sz, In (Heap id, sz) (nodes (root t)) /\ ~ In (Heap id) (frees_of evs)).
+  (exists t evs, set_all cfg_plain kg0 empty [(16, 1); (17, 2); (300, 3)] = Some t /\ reach cfg_plain t /\
+             fini true cfg_plain (fun _ => 0) kg0 t = Some evs /\
+             exists id sz, In (Heap id, sz) (nodes cfg_plain (root t)) /\ ~ In (Heap id) (frees_of evs)).
 Proof.
   split; [|split; [|split]].
   - eexists. split; [vm_compute; reflexivity|]. split; [|split; vm_compute; reflexivity].
-    apply (set_all_some_reach [(16, 777)] empty _ reach_empty). vm_compute. reflexivity.
+    apply (set_all_some_reach cfg_plain kg0 [(16, 777)] empty _ (reach_empty _)). vm_compute. reflexivity.
   - eexists. split; [vm_compute; reflexivity|]. split; [|vm_compute; reflexivity].
-    apply (set_all_some_reach [(0, 5); (16, 6)] empty _ reach_empty). vm_compute. reflexivity.
+    apply (set_all_some_reach cfg_plain kg0 [(0, 5); (16, 6)] empty _ (reach_empty _)). vm_compute. reflexivity.
   - eexists _, _. split; [vm_compute; reflexivity|]. split;
-      [apply (set_all_some_reach [(0, 5); (256, 6)] empty _ reach_empty); vm_compute; reflexivity|].
+      [apply (set_all_some_reach cfg_plain kg0 [(0, 5); (256, 6)] empty _ (reach_empty _)); vm_compute; reflexivity|].
     split; [vm_compute; reflexivity|]. split; [|vm_compute; reflexivity].
     vm_compute. do 16 right. left. reflexivity.
   - eexists _, _. split; [vm_compute; reflexivity|]. split;
-      [apply (set_all_some_reach [(16, 1); (17, 2); (300, 3)] empty _ reach_empty); vm_compute; reflexivity|].
+      [apply (set_all_some_reach cfg_plain kg0 [(16, 1); (17, 2); (300, 3)] empty _ (reach_empty _)); vm_compute; reflexivity|].
     split; [vm_compute; reflexivity|].
-    exists 2, SZ_LEAF. split; [vm_compute; tauto|]. vm_compute. intros [H|[H|[]]]; discriminate H.
+    exists 2, 136. split; [vm_compute; tauto|]. vm_compute. intros [H|[H|[]]]; discriminate H.
 Qed.
 
-Lemma fini_empty old dt : fini old dt empty = Some [].
+Lemma fini_empty old c dt kg : fini old c dt kg empty = Some [].
 Proof. reflexivity. Qed.
